@@ -161,31 +161,75 @@ def isSp (c : UInt8) : Bool :=
 
 def isAlpha (c : UInt8) : Bool := (0x41 ≤ c && c ≤ 0x5A) || (0x61 ≤ c && c ≤ 0x7A)
 
-/-- keywords of `keywordToken` which the grammar's `id` production accepts
-(COMPILED DISABLED EXEC FILETYPE LOCAL MEM_GB VMEM_GB PREFLIGHT RETAIN SPECIAL
-SPLIT STRICT STRUCT THREADS USING VOLATILE) -/
-def idKeywords : List String :=
-  ["comp", "disabled", "exec", "filetype", "local", "mem_gb", "memgb", "vmem_gb", "vmemgb",
-   "preflight", "retain", "special", "split", "strict", "struct", "threads", "using", "volatile"]
+/-- the keyword table of `keywordToken` (tokenizer.go): text ↦ token, in the
+order of the source (`Gen.tokKeywords` is re-read from the source on every run
+and must equal it, Props/C09.lean):
+as bool call comp default disabled exec false filetype float in int local map mem_gb memgb null out path pipeline preflight py retain return self special split src stage strict string struct threads true using volatile vmem_gb vmemgb -/
+def keywordTable : List (Bytes × String) :=
+  [([0x61, 0x73], "AS"),
+   ([0x62, 0x6F, 0x6F, 0x6C], "BOOL"),
+   ([0x63, 0x61, 0x6C, 0x6C], "CALL"),
+   ([0x63, 0x6F, 0x6D, 0x70], "COMPILED"),
+   ([0x64, 0x65, 0x66, 0x61, 0x75, 0x6C, 0x74], "DEFAULT"),
+   ([0x64, 0x69, 0x73, 0x61, 0x62, 0x6C, 0x65, 0x64], "DISABLED"),
+   ([0x65, 0x78, 0x65, 0x63], "EXEC"),
+   ([0x66, 0x61, 0x6C, 0x73, 0x65], "FALSE"),
+   ([0x66, 0x69, 0x6C, 0x65, 0x74, 0x79, 0x70, 0x65], "FILETYPE"),
+   ([0x66, 0x6C, 0x6F, 0x61, 0x74], "FLOAT"),
+   ([0x69, 0x6E], "IN"),
+   ([0x69, 0x6E, 0x74], "INT"),
+   ([0x6C, 0x6F, 0x63, 0x61, 0x6C], "LOCAL"),
+   ([0x6D, 0x61, 0x70], "MAP"),
+   ([0x6D, 0x65, 0x6D, 0x5F, 0x67, 0x62], "MEM_GB"),
+   ([0x6D, 0x65, 0x6D, 0x67, 0x62], "MEM_GB"),
+   ([0x6E, 0x75, 0x6C, 0x6C], "NULL"),
+   ([0x6F, 0x75, 0x74], "OUT"),
+   ([0x70, 0x61, 0x74, 0x68], "PATH"),
+   ([0x70, 0x69, 0x70, 0x65, 0x6C, 0x69, 0x6E, 0x65], "PIPELINE"),
+   ([0x70, 0x72, 0x65, 0x66, 0x6C, 0x69, 0x67, 0x68, 0x74], "PREFLIGHT"),
+   ([0x70, 0x79], "PY"),
+   ([0x72, 0x65, 0x74, 0x61, 0x69, 0x6E], "RETAIN"),
+   ([0x72, 0x65, 0x74, 0x75, 0x72, 0x6E], "RETURN"),
+   ([0x73, 0x65, 0x6C, 0x66], "SELF"),
+   ([0x73, 0x70, 0x65, 0x63, 0x69, 0x61, 0x6C], "SPECIAL"),
+   ([0x73, 0x70, 0x6C, 0x69, 0x74], "SPLIT"),
+   ([0x73, 0x72, 0x63], "SRC"),
+   ([0x73, 0x74, 0x61, 0x67, 0x65], "STAGE"),
+   ([0x73, 0x74, 0x72, 0x69, 0x63, 0x74], "STRICT"),
+   ([0x73, 0x74, 0x72, 0x69, 0x6E, 0x67], "STRING"),
+   ([0x73, 0x74, 0x72, 0x75, 0x63, 0x74], "STRUCT"),
+   ([0x74, 0x68, 0x72, 0x65, 0x61, 0x64, 0x73], "THREADS"),
+   ([0x74, 0x72, 0x75, 0x65], "TRUE"),
+   ([0x75, 0x73, 0x69, 0x6E, 0x67], "USING"),
+   ([0x76, 0x6F, 0x6C, 0x61, 0x74, 0x69, 0x6C, 0x65], "VOLATILE"),
+   ([0x76, 0x6D, 0x65, 0x6D, 0x5F, 0x67, 0x62], "VMEM_GB"),
+   ([0x76, 0x6D, 0x65, 0x6D, 0x67, 0x62], "VMEM_GB")]
 
-/-- the other keywords (`true false null self default` have their own token) -/
-def reservedKeywords : List String :=
-  ["as", "bool", "call", "float", "in", "int", "map", "out", "path", "pipeline", "py",
-   "return", "src", "stage", "string"]
+/-- the tokens the grammar's `id` production accepts besides `ID` (grammar.y;
+`Gen.idTokens`) -/
+def idTokens : List String :=
+  ["COMPILED", "DISABLED", "EXEC", "FILETYPE", "LOCAL", "MEM_GB", "VMEM_GB", "PREFLIGHT", "RETAIN",
+   "SPECIAL", "SPLIT", "STRICT", "STRUCT", "THREADS", "USING", "VOLATILE"]
 
-def kwBytes (l : List String) : List Bytes := l.map fun s => s.toUTF8.toList
+def lookupKw (w : Bytes) : List (Bytes × String) → Option String
+  | [] => none
+  | (k, t) :: r => if w = k then some t else lookupKw w r
 
 /-- the token for a maximal run `w` of word characters starting with `_` or a
 letter: a keyword when the whole run is one (`bytesPrefixString`), else what
-`tokIdRule` (`^_?[[:alpha:]]\w*\b`) makes of it -/
+`tokIdRule` (`^_?[[:alpha:]]\\w*\\b`) makes of it -/
 def wordLexeme (w : Bytes) : Lexeme :=
-  if w = sTrue then .tok .kTrue
-  else if w = sFalse then .tok .kFalse
-  else if w = sNull then .tok .kNull
-  else if w = sSelf then .tok .kSelf
-  else if w = sDefault then .tok .kDefault
-  else if (kwBytes reservedKeywords).contains w then .tok (.reserved w)
-  else match w with
+  match lookupKw w keywordTable with
+  | some t =>
+    if t == "TRUE" then .tok .kTrue
+    else if t == "FALSE" then .tok .kFalse
+    else if t == "NULL" then .tok .kNull
+    else if t == "SELF" then .tok .kSelf
+    else if t == "DEFAULT" then .tok .kDefault
+    else if idTokens.contains t then .tok (.id w)
+    else .tok (.reserved w)
+  | none =>
+    match w with
     | c :: d :: _ => if isAlpha c || (c == 0x5F && isAlpha d) then .tok (.id w) else .invalid
     | [c] => if isAlpha c then .tok (.id w) else .invalid
     | [] => .invalid
@@ -259,6 +303,14 @@ def pRefCall (f : Nat) (x : Bytes) : List Tok → Option (Exp × List Tok)
   | .punct 0x2E :: .kDefault :: r => some (.ref false x [sDefault], r)
   | r => (pDots f r).map fun (xs, r') => (.ref false x xs, r')
 
+/-- after an item of a bracketed list closed by `close`: a comma followed by
+more items (`true`), or the end of the list (an optional trailing comma is
+consumed; `false`).  LALR(1): after `,` the next token decides. -/
+def afterItem (close : UInt8) : List Tok → Bool × List Tok
+  | .punct 0x2C :: .punct c :: r => if c == close then (false, .punct c :: r) else (true, .punct c :: r)
+  | .punct 0x2C :: r => (true, r)
+  | r => (false, r)
+
 mutual
 /-- `exp` -/
 def pExp : Nat → List Tok → Option (Exp × List Tok)
@@ -292,18 +344,20 @@ def pElems : Nat → List Tok → Option (List Exp × List Tok)
   | 0, _ => none
   | f + 1, ts =>
     match pExp f ts with
-    | some (e, .punct 0x2C :: .punct 0x5D :: r) => some ([e], .punct 0x5D :: r)
-    | some (e, .punct 0x2C :: r) => (pElems f r).map fun (es, r') => (e :: es, r')
-    | some (e, r) => some ([e], r)
+    | some (e, r) =>
+      match afterItem 0x5D r with
+      | (true, r') => (pElems f r').map fun (es, r'') => (e :: es, r'')
+      | (false, r') => some ([e], r')
     | none => none
 /-- `kvpair_list` -/
 def pKVs : Nat → List Tok → Option (List (Bytes × Exp) × List Tok)
   | 0, _ => none
   | f + 1, .str k :: .punct 0x3A :: ts =>
     match unquoteBytes k, pExp f ts with
-    | some key, some (e, .punct 0x2C :: .punct 0x7D :: r) => some ([(key, e)], .punct 0x7D :: r)
-    | some key, some (e, .punct 0x2C :: r) => (pKVs f r).map fun (es, r') => ((key, e) :: es, r')
-    | some key, some (e, r) => some ([(key, e)], r)
+    | some key, some (e, r) =>
+      match afterItem 0x7D r with
+      | (true, r') => (pKVs f r').map fun (es, r'') => ((key, e) :: es, r'')
+      | (false, r') => some ([(key, e)], r')
     | _, _ => none
   | _ + 1, _ => none
 /-- `struct_vals_list` -/
@@ -311,9 +365,10 @@ def pFields : Nat → List Tok → Option (List (Bytes × Exp) × List Tok)
   | 0, _ => none
   | f + 1, .id k :: .punct 0x3A :: ts =>
     match pExp f ts with
-    | some (e, .punct 0x2C :: .punct 0x7D :: r) => some ([(k, e)], .punct 0x7D :: r)
-    | some (e, .punct 0x2C :: r) => (pFields f r).map fun (es, r') => ((k, e) :: es, r')
-    | some (e, r) => some ([(k, e)], r)
+    | some (e, r) =>
+      match afterItem 0x7D r with
+      | (true, r') => (pFields f r').map fun (es, r'') => ((k, e) :: es, r'')
+      | (false, r') => some ([(k, e)], r')
     | none => none
   | _ + 1, _ => none
 end
@@ -356,6 +411,56 @@ def normL : List Exp → List Exp
 def normKV : List (Bytes × Exp) → List (Bytes × Exp)
   | [] => []
   | (k, v) :: r => (k, norm v) :: normKV r
+end
+
+
+/-! ## the expressions for which the round trip is claimed -/
+
+/-- an identifier: a run of word characters which the tokenizer returns as an
+`id` token (not `true`, `int`, `self`, …; `split`, `struct`, … are fine) -/
+def isIdent (w : Bytes) : Bool := w.all isWord && wordLexeme w == .tok (.id w)
+
+/-- keys in strictly ascending order (what a Go map printed through
+`sort.Strings` looks like), stated pairwise -/
+def sortedKeys : List (Bytes × Exp) → Bool
+  | [] => true
+  | (k, _) :: r => r.all (fun kv => bytesLt k kv.1) && sortedKeys r
+
+def inInt64 (v : Int) : Bool := decide (-(9223372036854775808 : Int) ≤ v) && decide (v < 9223372036854775808)
+
+/-- the text is what `strconv.FormatInt` prints for the number it denotes
+(no `+`, no leading zeros, no `-0`) -/
+def isCanonInt (t : Bytes) : Bool :=
+  match parseInt t with
+  | some i => fmtInt i == t
+  | none => false
+
+mutual
+/-- well-formed: every string is valid UTF-8; integers fit `int64`; a float's
+text is a NUM_FLOAT token or a canonical integer (Go prints integral floats
+below 1e21 without exponent or fraction; `-0` is not canonical: F26);
+map keys ascending; struct keys and reference components are identifiers; a
+reference names a call output (`X`, `X.a.b`, `X.default`) or a parameter
+(`self.x`, `self.x.a`) -/
+def wf : Exp → Bool
+  | .null => true
+  | .nilArr => true
+  | .bool _ => true
+  | .int i => inInt64 i
+  | .float t => isFloatTok t || isCanonInt t
+  | .str s => Martian.ShellQuote.validUtf8 s
+  | .arr xs => wfL xs
+  | .map kvs => sortedKeys kvs && wfKV false kvs
+  | .struct kvs => sortedKeys kvs && wfKV true kvs
+  | .ref self id out =>
+    isIdent id && ((!self && out == [sDefault]) || out.all isIdent)
+def wfL : List Exp → Bool
+  | [] => true
+  | x :: r => wf x && wfL r
+def wfKV (struct : Bool) : List (Bytes × Exp) → Bool
+  | [] => true
+  | (k, v) :: r =>
+    (if struct then isIdent k else Martian.ShellQuote.validUtf8 k) && wf v && wfKV struct r
 end
 
 end Martian.FormatExp
